@@ -21,7 +21,7 @@ ASSUMPTIONS = ["TLS, NURLs and the real network are not involved (the HTTP resou
                "zero-length reads/writes are not generated", "collections_extended.RangeMap is provided by the shim in /verif/shims"]
 REQUIRED_CLASSES = ["testv-matching", "testv-size-ne-specimen", "testv-must-not-exist", "chunked-upload", "out-of-order-chunks", "read-past-end", "failing-testv", "readv-absent-share", "readv-all", "add-lease-immutable", "add-lease-mutable", "abort", "realloc-existing"]
 BUDGET = {"quick": 900, "thorough": 7200}
-SIZES = [1, 10, 33, 100]
+SIZES = [1, 10, 33, 100, 70000]        # (the last one is larger than the 64 KiB pieces in which the HTTP server stores a request body)
 
 
 def plan(tier):
@@ -58,6 +58,11 @@ def cases(draw):
         for s_ in shnums:
             ops.append(["finish", si_n, s_, draw(st.lists(st.integers(1, 60), min_size=1, max_size=3)), draw(st.booleans())])
         ops.append(["read", si_n, draw(st.lists(rng, min_size=1, max_size=3))])
+    if draw(st.integers(0, 5)) == 0:
+        # a share larger than one 64 KiB piece: a small write far in, then one request covering the whole share whose bytes differ from it (refused), then the rest
+        si_n, s_ = draw(si_i), draw(sh)
+        ops += [["alloc", si_n, [s_], 4, draw(st.integers(0, 2))], ["bigwrite", si_n, s_, 66000 + draw(st.integers(0, 3000)), draw(st.integers(1, 20)), False],
+                ["bigwrite", si_n, s_, draw(st.sampled_from([0, 0, 100, 65536])), 70000, True]] + draw(st.lists(op, max_size=3)) + [["finish", si_n, s_, [draw(st.integers(20, 60))], draw(st.booleans())]]
     return {"ops": ops + draw(st.lists(op, min_size=1, max_size=14))}
 
 
@@ -121,15 +126,17 @@ def run_case(case, ctx):
                     classes.add("realloc-existing")
                 for s_ in r[1][1]:
                     writers[(si_n, s_)] = {"size": size, "w": {name: got[name][s_] for name, _ in stacks}, "written": set(), "chunks": 0, "ooo": False, "next": 0}
-        elif kind in ("write", "finish"):
+        elif kind in ("write", "finish", "bigwrite"):
             key = (o[1], o[2])
             w = writers.get(key)
             if not w:
                 continue
             size = w["size"]
             data = content(key[0], key[1], size)
-            if kind == "write":
+            if kind in ("write", "bigwrite"):
                 off, ln, conflict = o[3] % size, o[4], o[5]
+                if kind == "bigwrite":
+                    classes.add("request-larger-than-one-piece" if min(ln, size - off) > 65536 else "write-beyond-first-piece")
                 ln = max(1, min(ln, size - off))
                 piece = data[off:off + ln]
                 if conflict and any(p in w["written"] for p in range(off, off + ln)):
@@ -144,7 +151,7 @@ def run_case(case, ctx):
                 chunks = []
                 i = 0
                 while missing:
-                    c = o[3][i % len(o[3])]
+                    c = o[3][i % len(o[3])] * (1000 if size > 1000 else 1)
                     i += 1
                     start = missing[0]
                     run = [start]
